@@ -144,3 +144,60 @@ Arguments pflag {V}.
 Arguments none_ok {V}.
 Arguments guard_F1_entry {V}.
 Arguments guard_F1 {V}.
+
+(** ** The backtracking flag of an expression, as the property states it.
+
+    Every rule carries its own  backtracking_enabled ; several rules (of one rule set) may
+    share a path expression.  "A less specific expression is tried only if backtracking is
+    enabled for the failed one": when the expression fails, EVERY rule on it has failed, and
+    "a less specific rule [that] fails to match and does not permit backtracking" stops the
+    search (regular_rule.adoc).  So the flag of an expression is the conjunction of the flags
+    of its values.  The index keeps ONE flag per node, the one of the last Add (finding
+    C02-F2 = C06-F2 seen from C02). *)
+
+Section SpecFlag.
+Variable V : Type.
+Variable vflag : V -> bool.        (* the backtracking_enabled of the rule a value belongs to *)
+Notation node := (node V).
+Notation db := (db V).
+Notation matcher := (matcher V).
+
+Definition spec_flag (n : node) : bool := forallb vflag (vals n).
+
+Definition respec_node (n : node) : node := {| vals := vals n; flag := spec_flag n; keys := keys n |}.
+
+(** the index content with every expression's flag as the property states it *)
+Definition respec (d : db) : db := map (fun e => (fst e, respec_node (snd e))) d.
+
+(** the expression matches the path and none of its values is acceptable *)
+Definition fails_at (m : matcher) (path : str) (e : pat * node) : bool :=
+  match match_pat (fst e) path with
+  | Some caps => forallb (fun v => negb (m v (keys (snd e)) caps)) (vals (snd e))
+  | None => false
+  end.
+
+(** finding C02-F2 can show only if some loaded expression matches the path, none of its
+    values is acceptable, and the node's flag is not the conjunction of its values' flags *)
+Definition guard_F2_entry (m : matcher) (path : str) (e : pat * node) : bool :=
+  fails_at m path e && negb (Bool.eqb (flag (snd e)) (spec_flag (snd e))).
+
+Definition guard_F2 (d : db) (path : str) (m : matcher) : bool :=
+  existsb (guard_F2_entry m path) d.
+
+(** every Add passes the flag of its value's rule (repository.addRulesTo) *)
+Definition flags_from_values (l : list (addop V)) : Prop :=
+  forall a, In a l -> ao_bt a = vflag (ao_val a).
+
+Definition last_opt (l : list V) : option V :=
+  match rev l with v :: _ => Some v | [] => None end.
+
+End SpecFlag.
+
+Arguments spec_flag {V}.
+Arguments respec_node {V}.
+Arguments respec {V}.
+Arguments fails_at {V}.
+Arguments guard_F2_entry {V}.
+Arguments guard_F2 {V}.
+Arguments flags_from_values {V}.
+Arguments last_opt {V}.
